@@ -3,8 +3,8 @@ from .. import lib, presentation as pr
 
 PID = "C05"
 TIERS = {
-    "quick":    dict(num=140, depth=4, bases=7, jitter=0),
-    "thorough": dict(num=900, depth=6, bases=12, jitter=2),
+    "quick":    dict(num=140, depth=4, bases=8, jitter=0),
+    "thorough": dict(num=900, depth=6, bases=13, jitter=2),
 }
 
 
